@@ -341,3 +341,73 @@ def _fresh_size(prog, rd, node_id, e, depth=0):
         if len(ds) == 1 and ds[0].rhs is not None and ds[0].kind in ('init', 'assign'):
             return _fresh_size(prog, rd, ds[0].node, ds[0].rhs, depth + 1)
     return None
+
+
+# --------------------------------------------------------------------------------------
+# R2-move: a payload pointer and its size field move together
+
+def payload_pairs(prog):
+    """record -> [(pointer field, size field)] derived from the record declarations."""
+    out = {}
+    for u in prog.units:
+        for rn, fl in u.record_fields.items():
+            if not rn.endswith('_obj_s') or rn in out:
+                continue
+            names = {f['name']: f for f in fl}
+            pairs = []
+            for f in fl:
+                if not f['type'].rstrip().endswith('*'):
+                    continue
+                for cand in (f['name'] + 'size', 'size' if f['name'] == 'data' else None):
+                    if cand and cand in names and not names[cand]['type'].rstrip().endswith('*'):
+                        pairs.append((f['name'], cand))
+                        break
+            if pairs:
+                out[rn] = pairs
+    return out
+
+
+def rule_r2_move(prog, rep, units, rid='R2-move'):
+    from .chain import expand
+    rep.rule(rid, 'when a key/value pointer is taken over from another node, its size field is taken over from the same node')
+    pairs = payload_pairs(prog)
+    rep.notes['payload_size_pairs'] = {k: ['%s/%s' % p for p in v] for k, v in pairs.items()}
+    for rel in units:
+        for f in sorted(prog.funcs_in(rel), key=lambda x: x.line or 0):
+            assigns = []
+            for n in f.cfg.nodes:
+                if n.id not in f.cfg.reachable or not isinstance(n.ast, dict) or n.kind == 'macro':
+                    continue
+                for x in walk(n.ast):
+                    if x.get('kind') == 'BinaryOperator' and x.get('opcode') == '=':
+                        l = strip(children(x)[0])
+                        if l.get('kind') == 'MemberExpr' and l.get('_field') and l['_field'][0] in pairs:
+                            assigns.append((n, x, l))
+            if not assigns:
+                continue
+            rd = ReachingDefs(f)
+            for (n, x, l) in assigns:
+                rec, fld = l['_field'][0], l['_field'][1]
+                pr = [p for p in pairs[rec] if p[0] == fld]
+                if not pr:
+                    continue
+                sizef = pr[0][1]
+                src = expand(rd, n.id, children(x)[1])
+                m = re.match(r'^(.*)(->|\.)%s$' % re.escape(fld), src)
+                if not m:
+                    continue
+                owner = m.group(1)
+                dst = canon(children(l)[0]) + ('->' if l.get('isArrow') else '.')
+                if owner + m.group(2) == dst:
+                    continue
+                # the source must itself be a node of the same record
+                rep.instance(rid)
+                want = '%s%s%s' % (owner, m.group(2), sizef)
+                got = [expand(rd, n2.id, children(x2)[1]) for (n2, x2, l2) in assigns
+                       if l2['_field'][1] == sizef and canon(children(l2)[0]) == canon(children(l)[0])]
+                ok = want in got
+                rep.oblige(rid, ok, {'function': f.name, 'move': '%s%s = %s' % (dst, fld, src), 'size_from': got})
+                if not ok:
+                    rep.violation(rid, f, x.get('_line'), 'move:%s' % fld,
+                                  '%s%s takes over %s but %s%s is %s: the payload is later copied/reported with the wrong length'
+                                  % (dst, fld, src, dst, sizef, ('assigned from ' + ', '.join(got)) if got else 'not updated'))
